@@ -499,149 +499,35 @@ def gen_cases(ctx):
 
 
 # --------------------------------------------------------------------------------------------
-# known defect classes (DESIGN.md section 5): each has ONE fixed witness replayed on every run (that
-# is the key known_findings/C13.json matches on).  Other generated inputs that fail for the same
-# reason are attributed to the class only while its witness still fails in this very run.
+# witnesses of the REPAIRED defects (known_findings/C13.json "fixed:"): one exact input each, replayed on every run.
+# There is no class-level attribution any more: every failing input is a VIOLATION (a finding is matched by
+# known_findings on its exact key only).
 # --------------------------------------------------------------------------------------------
-
-def _u64(v):
-    return v % 2**64
-
-
-def cls_gmatch_lastmatch(a, lua, nel):
-    return a[0] == "gmatch" and nel == "!nonterminating"
-
-
-def cls_gmatch_anchor(a, lua, nel):
-    return a[0] == "gmatch" and unx(a[2])[:1] == b"^" and not nel.startswith("!")
-
-
-def cls_rep_overflow(a, lua, nel):
-    if a[0] not in ("rep", "repsep") or not (nel.startswith("!sig") or nel == "!exit77") or nel == "!sig6":
-        return False
-    n = int(a[2])
-    part = len(unx(a[1])) + (len(unx(a[3])) if a[0] == "repsep" else 0)
-    return n > 1 and n * part >= 2**64
-
-
-def cls_create_max(a, lua, nel):
-    """string.create(2^64-1): size + 1 wraps to 0"""
-    if a[0] not in ("rep", "repsep") or not (nel.startswith("!sig") or nel == "!exit77") or nel == "!sig6":
-        return False
-    n = int(a[2])
-    part = len(unx(a[1])) + (len(unx(a[3])) if a[0] == "repsep" else 0)
-    return n > 1 and n * part - (len(unx(a[3])) if a[0] == "repsep" else 0) == 2**64 - 1
-
-
-def cls_fmod_trap(a, lua, nel):
-    return a[0] == "fmod" and nel in ("!sig8", "!exit77") and int(a[2]) in (0, -1)
-
-
-def cls_utf8char_range(a, lua, nel):
-    return a[0] in ("utf8char", "utf8char2") and lua.startswith("!error") and "out of range" in lua and not nel.startswith("!") \
-        and any(not (0 <= int(v) < 2**32) for v in a[1:])
-
-
-def cls_pack_overflow(a, lua, nel):
-    return a[0] in ("pack1", "pack2") and lua.startswith("!error") and ("overflow" in lua) and not nel.startswith("!")
-
-
-def cls_utf8codes_cont(a, lua, nel):
-    return a[0] == "utf8codes" and lua.startswith("!error") and "invalid UTF-8 code" in lua and not nel.startswith("!")
-
-
-def cls_minmax_partial_order(a, lua, nel):
-    if a[0] not in ("fmax2", "fmin2") or nel.startswith("!") or lua.startswith("!"):
-        return False
-    x, y = [struct.unpack("<d", struct.pack("<Q", int(t[1:], 16)))[0] for t in a[1:3]]
-    return x != x or y != y or (x == 0 and y == 0)
-
-
-def cls_frontier_empty(a, lua, nel):
-    return a[0] in ("find", "match", "gmatch", "gsub", "gsub3") and a[1] in ("e", "x") and b"%f" in unx(a[2]) \
-        and (nel in ("!sig11", "!exit77"))
-
-
-def cls_codepoint_overread(a, lua, nel):
-    return a[0] == "utf8codepoint" and nel == "!exit77"
-
-
-def cls_abs_negzero(a, lua, nel):
-    return a[0] == "fabs" and a[1] == "f8000000000000000" and nel == "f8000000000000000"
-
-
-def cls_find_unfinished_capture(a, lua, nel):
-    return a[0] == "find" and lua.startswith("!error") and "unfinished capture" in lua and not nel.startswith("!")
-
-
-def cls_pack_c_nosize(a, lua, nel):
-    return a[0] in ("packsize", "packs", "pack1", "pack2") and lua.startswith("!error") and "missing size for format option 'c'" in lua \
-        and not nel.startswith("!")
-
-
-def cls_unpack_z_init(a, lua, nel):
-    return a[0] == "unpack" and UNPACK_FORMATS[int(a[1]) - 1] == "z" and lua.startswith("!error") and "initial position out of string" in lua \
-        and nel != "!sig6"
-
-
-def cls_utf8offset_empty(a, lua, nel):
-    return a[0] in ("utf8offset", "utf8offset2") and a[1] == "x" and nel in ("!sig11", "!exit77")
-
-
-def cls_pack_unsigned_signext(a, lua, nel):
-    if a[0] != "pack1" or lua.startswith("!") or nel.startswith("!"):
-        return False
-    m = re.match(r"^[<>=]?I(\d+)$", unx(a[1]).decode("latin1"))
-    return bool(m) and int(m.group(1)) > 8 and int(a[2]) < 0
-
-
-def _is_fmt(a):
-    return a[0] in ("fmt0", "fmti", "fmtii", "fmts", "fmtis", "fmtsi", "fmtf")
-
-
-def cls_format_spec_unchecked(a, lua, nel):
-    return _is_fmt(a) and lua.startswith("!error") and "invalid conversion specification" in lua and not nel.startswith("!")
-
-
-def cls_format_float_as_int(a, lua, nel):
-    return a[0] == "fmtf" and lua.startswith("!error") and "number has no integer representation" in lua and not nel.startswith("!")
-
-
-def cls_format_s_zeros(a, lua, nel):
-    return _is_fmt(a) and lua.startswith("!error") and "string contains zeros" in lua and not nel.startswith("!")
-
-
-def cls_format_item_too_long(a, lua, nel):
-    # the item does not fit MAX_ITEM = 128: the port commits the length snprintf would have written
-    if not (a[0] == "fmtf" and lua.startswith("x") and nel.startswith("x") and len(lua) == len(nel) and len(lua) > 2 * 127):
-        return False
-    return nel[1:1 + 2 * 127] == lua[1:1 + 2 * 127] and set(nel[1 + 2 * 127:]) <= {"0"}
-
-
-KNOWN_CLASSES = [
-    # key (= the witness case line), class predicate, needs_asan
-    ("gmatch x616263 x782a", cls_gmatch_lastmatch, False),
-    ("gmatch x616161 x5e61", cls_gmatch_anchor, False),
-    ("rep x61626364 4611686018427387905", cls_rep_overflow, False),
-    ("rep x616263 6148914691236517205", cls_create_max, False),
-    ("fmod -9223372036854775808 -1", cls_fmod_trap, False),
-    ("utf8char 4294967361", cls_utf8char_range, False),
-    ("pack1 x3c6931 300", cls_pack_overflow, False),
-    ("utf8codes x4180 0", cls_utf8codes_cont, False),
-    ("fmax2 f7ff8000000000000 f3ff0000000000000", cls_minmax_partial_order, False),
-    ("find x x25665b257a5d 1 0", cls_frontier_empty, False),
-    ("asan: utf8codepoint xe4b8ad 2 0", cls_codepoint_overread, True),
-    ("fabs f8000000000000000", cls_abs_negzero, False),
-    ("find x41 x28 1 0", cls_find_unfinished_capture, False),
-    ("packsize x63", cls_pack_c_nosize, False),
-    ("unpack 87 x00 9223372036854775807", cls_unpack_z_init, False),
-    ("utf8offset2 x 1", cls_utf8offset_empty, False),
-    ("pack1 x3c4939 -1", cls_pack_unsigned_signext, False),
-    ("fmti x252364 5", cls_format_spec_unchecked, False),
-    ("fmtf x2564 f400c000000000000", cls_format_float_as_int, False),
-    ("fmts x25352e3273 x61006263", cls_format_s_zeros, False),
-    ("fmtf x252e393966 f54b249ad2594c37d", cls_format_item_too_long, False),
+WITNESSES = [
+    # (case line, needs the AddressSanitizer build)
+    ("gmatch x616263 x782a", False),
+    ("gmatch x616161 x5e61", False),
+    ("rep x61626364 4611686018427387905", False),
+    ("rep x616263 6148914691236517205", False),
+    ("fmod -9223372036854775808 -1", False),
+    ("utf8char 4294967361", False),
+    ("pack1 x3c6931 300", False),
+    ("utf8codes x4180 0", False),
+    ("fmax2 f7ff8000000000000 f3ff0000000000000", False),
+    ("find x x25665b257a5d 1 0", False),
+    ("utf8codepoint xe4b8ad 2 0", True),
+    ("fabs f8000000000000000", False),
+    ("find x41 x28 1 0", False),
+    ("packsize x63", False),
+    ("unpack 87 x00 9223372036854775807", False),
+    ("utf8offset2 x 1", False),
+    ("pack1 x3c4939 -1", False),
+    ("fmti x252364 5", False),
+    ("fmtf x2564 f400c000000000000", False),
+    ("fmts x25352e3273 x61006263", False),
+    ("fmtf x252e393966 f54b249ad2594c37d", False),
 ]
+PATTERN_OPS = ("find", "match", "gmatch", "gsub", "gsub3")
 
 
 # --------------------------------------------------------------------------------------------
@@ -763,7 +649,7 @@ def correspond(ctx):
             line = line.strip()
             if line and not line.startswith("#"):
                 corpus.append(("corpus", line))
-    witnesses = [("witness", k) for k, _, needs_asan in KNOWN_CLASSES if not needs_asan]
+    witnesses = [("witness", k) for k, needs_asan in WITNESSES if not needs_asan]
     gen_list, dist = gen_cases(ctx)
     cases = witnesses + corpus + gen_list
     dist["witness"] = len(witnesses)
@@ -772,7 +658,7 @@ def correspond(ctx):
     nl, ll, ml = run_three(ctx, lines, drv, interp, model)
 
     # memory-safety stream under AddressSanitizer: witnesses + a sample of every stream
-    asan_lines = [k[6:] for k, _, needs_asan in KNOWN_CLASSES if needs_asan] + ["find e x25665b257a5d 1 0"]
+    asan_lines = [k for k, needs_asan in WITNESSES if needs_asan] + ["find e x25665b257a5d 1 0"]
     sample = [l for (st, l) in cases if st in ("witness", "corpus")]
     rest = [l for (st, l) in gen_list if not l.startswith(("rep ", "repsep "))]
     sample += ctx.rng.sample(rest, min(len(rest), ctx.scale(6000, 40000)))     # a fork under ASan costs ~4 ms
@@ -780,17 +666,16 @@ def correspond(ctx):
     asan_all = asan_lines + sample
     anl, all_, aml = run_three(ctx, asan_all, drv, interp, model, asan_drv=asan_drv)
 
-    witness_fails = {}
     stats = {"ok": 0, "undefined": 0, "FAIL": 0}
     per_op = {}
     err_kinds = {}
-    attributed = {}
     nontrivial = set()
     n_model_mismatch = 0
     reported = 0
     failing = []
     voiced = {}
     spec_stats = {"checked": 0, "mismatch": 0}
+    undefined_by = {}
 
     def handle(line, lua, nel, mod, tag=""):
         nonlocal n_model_mismatch, reported
@@ -801,7 +686,7 @@ def correspond(ctx):
             mod, spec = mod.split(" || ", 1)
         if mod != "?":
             voiced[a[0]] = voiced.get(a[0], 0) + 1
-        if spec is not None and not tag:
+        if spec is not None and spec != "?" and not tag:
             spec_stats["checked"] += 1
             if not ((spec == "!error" and lua.startswith("!error")) or spec == lua):
                 spec_stats["mismatch"] += 1
@@ -810,21 +695,20 @@ def correspond(ctx):
                                   "the Coq transcription of Lua's %s does not agree with the reference interpreter on '%s': transcription %s, interpreter %s" % (a[0], line, spec[:80], lua[:80]),
                                   detail={"case": line, "spec": spec, "reference_lua": lua, "no_longer_checks": "spec stream C13/%s" % a[0]}, failing_input=False)
         st, why = verdict(a, lua, nel)
+        if st == "undefined" and not (mod == "!trap" or (mod == "?" and a[0] in PATTERN_OPS)):
+            # the port stops where Lua returns: accepted only as a documented limit, i.e. when the model of the port
+            # predicts the stop (or, for patterns beyond the model voice's size limit, when the model has no voice)
+            st, why = "FAIL", "the port stops where Lua is defined and the model of the port does not predict the stop"
         stats[st] += 1
+        if st == "undefined":
+            k = "%s:%s" % (a[0], "model-trap" if mod == "!trap" else "no-model-voice")
+            undefined_by[k] = undefined_by.get(k, 0) + 1
         if nel.startswith("!"):
             err_kinds[nel] = err_kinds.get(nel, 0) + 1
         if st == "ok" and not nel.startswith("!") and len(line) > 14:
             nontrivial.add(line)
         key = tag + line
         if st == "FAIL":
-            for k, pred, needs_asan in KNOWN_CLASSES:
-                if k == key:
-                    witness_fails[k] = (lua, nel, why)
-                    return
-            for k, pred, needs_asan in KNOWN_CLASSES:
-                if k in witness_fails and pred(a, lua, nel):
-                    attributed[k] = attributed.get(k, 0) + 1
-                    return
             reported += 1
             failing.append("%s%s | lua=%s | port=%s | %s" % (tag, line, lua[:100], nel[:100], why))
             if reported <= 8:
@@ -839,7 +723,7 @@ def correspond(ctx):
                               detail={"case": line, "implementation": nel, "model": mod, "reference_lua": lua,
                                       "no_longer_checks": "correspondence stream C13/%s" % a[0]}, failing_input=False)
 
-    # witnesses first (they decide which classes are "known and still present")
+    # witnesses first
     for i, (st, line) in enumerate(cases):
         if st == "witness":
             handle(line, ll[i], nl[i], ml[i])
@@ -853,10 +737,6 @@ def correspond(ctx):
             handle(line, all_[i], anl[i], aml[i], tag="asan: ")
     with open(os.path.join(ctx.work, "failures.txt"), "w") as f:
         f.write("\n".join(failing) + "\n")
-    # report the witnesses that still fail (KNOWN-FINDING when listed in known_findings/C13.json)
-    for k, (lua, nel, why) in witness_fails.items():
-        ctx.violation(k, "oracle", "%s: %s; reference Lua: %s, port: %s" % (k, why, lua[:120], nel[:120]),
-                      detail={"case": k, "reference_lua": lua, "implementation": nel, "why": why})
     return {
         "evaluations": len(cases) + len(asan_all),
         "distinct_nontrivial": len(nontrivial),
@@ -864,26 +744,76 @@ def correspond(ctx):
         "samples": lines[:3] + lines[len(lines) // 2: len(lines) // 2 + 3] + lines[-3:],
         "distribution": {"streams": dist, "per_op": per_op, "port_error_kinds": err_kinds, "verdicts": stats,
                          "asan_cases": len(asan_all),
-                         "cases_with_model_voice_per_op": voiced,
-                         "attributed_to_known_finding": attributed},
+                         "cases_with_model_voice_per_op": voiced},
         "oracle_failures": stats["FAIL"],
         "model_mismatches": n_model_mismatch,
         "spec_voice_checked_against_interpreter": spec_stats["checked"],
         "spec_voice_mismatches": spec_stats["mismatch"],
         "port_undefined_where_lua_defined": stats["undefined"],
+        "port_undefined_by_op_and_model_voice": undefined_by,
         "traces_validated_against_impl": len(cases),
         "unproved": UNPROVED,
     }
 
 
+THEOREM_CLASSES = {
+    # main: a clause of the property statement, port against the Lua transcription or against memory safety
+    "C13_sub_eq_lua": "main", "C13_find_init_eq_lua": "main", "C13_byte_eq_lua": "main",
+    "C13_rep_eq_lua_partial": "main", "C13_rep_sep_eq_lua_partial": "main", "C13_rep_val_is_repetition": "main",
+    "C13_rep_memory_safe": "main", "C13_rep_sep_memory_safe": "main",
+    "C13_reverse_eq_lua": "main", "C13_strchar_eq_clocale": "main", "C13_upper_eq_lua": "main", "C13_lower_eq_lua": "main",
+    "C13_abs_eq_lua": "main", "C13_fmod_eq_lua": "main", "C13_fmod_never_unsafe": "main",
+    "C13_lua_strcmp_eq_lex": "main", "C13_strlt_eq_lua": "main", "C13_strle_eq_lua": "main", "C13_streq_iff": "main",
+    "C13_strle_total_preorder": "corollary",
+    "C13_find_search_eq_lua": "main", "C13_gsub_eq_lua": "main", "C13_gmatch_eq_lua": "main",
+    "C13_utf8_roundtrip": "main", "C13_utf8_strict_spec": "main",
+    # both sides are ONE Gallina function over scraped constants: only a change of the constants is detected
+    "C13_utf8_decode_eq_lua": "definitional",
+    "C13_utf8char_eq_lua": "main", "C13_utf8relpos_eq_lua": "main", "C13_codepoint_eq_lua_partial": "main",
+    "C13_codepoint_memory_safe": "main", "C13_utf8len_eq_lua": "main", "C13_utf8len_fuel_never_exhausted": "main",
+    "C13_utf8offset_eq_lua": "main", "C13_utf8codes_step_eq_lua": "main", "C13_utf8codes_first_cont": "corollary",
+    "C13_pack_unpack_int_roundtrip": "main", "C13_pack_unpack_uint_roundtrip": "main",
+    "C13_pack_int_eq_lua": "main", "C13_pack_uint_eq_lua": "main", "C13_pack_unpack_format_roundtrip": "main",
+    "C13_packsize_eq_lua_partial": "main", "C13_pack_alignforward_eq_lua": "main",
+    # the matcher: ONE transcription of match() run under two configurations (budget, character classes):
+    # the content is classes = C locale + budget monotonicity, not a structural comparison of two codes
+    "C13_match_eq_lua": "main", "C13_match_is_lua_with_small_budget": "main", "C13_match_error_eq_lua": "corollary",
+    "C13_match_range": "main", "C13_gsub_pattern_eq_lua_partial": "main",
+    "C13_match_fuel_never_exhausted": "main", "C13_match_loop_bounds_adequate": "main", "C13_match_never_unsafe": "main",
+    "C13_match_positions_in_range": "main", "C13_match_class_end_in_pattern": "corollary",
+    "C13_match_expansion_in_subject": "corollary", "C13_match_balance_in_subject": "corollary",
+    "C13_find_plain_first": "main", "C13_find_plain_none": "main",
+    "C13_format_eq_lua": "main", "C13_format_val_is_lua": "main", "C13_format_iff_restricted_lua": "corollary",
+    "C13_format_restricted_is_lua": "corollary", "C13_c99_plain_d_is_decimal": "corollary",
+    "C13_gen_facts": "tripwire",
+}
+
+MANIFEST_ENTRY = {
+    "text": "proof, partial: theorems (port model against a Coq transcription of lstrlib.c / lutf8lib.c / lmathlib.c / lvm.c, itself run against the "
+            "real interpreter on every check) for index normalisation of sub/find/byte, string order, case, reverse, rep (one direction + "
+            "memory safety), the find/gsub/gmatch drivers over an abstract matcher, the matcher up to its documented 32-level budget (one "
+            "transcription under two configurations; fuel never exhausted, positions always inside the arguments), utf8 char/len/offset/"
+            "codes/codepoint, the pack integer codec, packsize (one direction), pack/unpack round trip over whole option lists, string.format "
+            "for integer/character/string conversions (both directions), integer abs/fmod; differential testing only for: float formatting and "
+            "float math, concatenation, function/table replacements of gsub, float pack options, byte/char varargs, the per-byte reads inside "
+            "one matcher step (AddressSanitizer stream)",
+    "note": "model = hand transcription of lib/string|utf8|math.nelua and lib/detail/strpatt|strpack|strchar.nelua + stringbuilder writef, tied "
+            "by scraped constants (Gen.v) and a three-voice correspondence (compiled port, real Lua 5.4.6, extracted model; the Lua "
+            "transcription is a fourth voice); ISO C99 snprintf is a transcription run against glibc; LP64 sizes and a 2^47 allocation limit are "
+            "platform assumptions; no file of another property is used",
+    "technique": "machine-checked proof in Coq over executable models + extracted-model / implementation / reference-interpreter correspondence",
+}
+
 UNPROVED = [
-    "string.format: the conversions of FLOATS (a A e E f g G) are differential only; the theorem C13_format_eq_lua treats the C formatter of floats as an arbitrary function (same specification, same argument on both sides). %q is not supported by the port (it stops), %p of non-pointers likewise; numeric conversions of STRING arguments (Lua coerces, the port is statically typed and stops) are outside the reference model. [c99_snprintf] (ISO C99 7.21.6.1 for d i u o x X c s) is a hand transcription of the standard, run against glibc through both real voices on every check, not proved against libc. Under the pragmas usestbsprintf / usenanoprintf the port bundles other snprintf implementations: not covered",
-    "string.format: no theorem that an integer item fits MAX_ITEM (at most 2 + 99 characters by C99, measured only); the float item that does not fit is the known finding 'formatted item too long'",
-    "float math (floor/ceil/fmod/abs/max/min on floats): differential only (the two-argument max/min order defect is modelled abstractly)",
+    "string.format: the conversions of FLOATS (a A e E f g G) are differential only; C13_format_eq_lua / C13_format_val_is_lua treat the C formatter of floats as an arbitrary function (same specification, same argument on both sides). %q is not supported by the port (it stops), %p of non-pointers likewise; numeric conversions of STRING arguments (Lua coerces, the port is statically typed and stops) are outside the reference model. [c99_snprintf] (ISO C99 7.21.6.1 for d i u o x X c s) is a hand transcription of the standard, run against glibc through both real voices on every check, not proved against libc. Under the pragmas usestbsprintf / usenanoprintf the port bundles other snprintf implementations: not covered",
+    "string.format: no theorem that [c99_snprintf] is defined (never the 'undefined in ISO C' outcome) on every specification the port's checkformat accepts, and none that an item fits MAX_ITEM = 512 (integers: at most 2 + 99 characters by C99); both measured on every run only",
+    "float math (floor/ceil/fmod/abs/max/min on floats), integer max/min/ult/floor/ceil/tointeger (the model is Lua's definition verbatim: nothing to prove, differential only), string concatenation: differential only",
+    "pattern matcher: C13_match_eq_lua compares ONE transcription of match() under the two configurations (budget 32 vs 200, strchar vs C locale); that strpatt.nelua::_match has the control flow of lstrlib.c::match is established by reading and by the correspondence, not by a second structurally separate model",
     "pattern matcher, reads: C13_match_positions_in_range checks the positions and captures on every entry of match() / goto init (any depth); the reads INSIDE one step (single-character classes, bracket classes, %b, %f, back references) are guarded by those positions plus C13_match_class_end_in_pattern / _expansion_in_subject / _balance_in_subject, but there is no instrumented semantics with one check per byte read; the AddressSanitizer stream covers that dynamically. A pattern or subject that is a non-terminated string view (pattern.data[#pattern] is read as the terminator) is outside the model",
     "pattern matcher, loop bounds: each inner loop is shown independent of its bound (C13_match_loop_bounds_adequate) and the outer fuel is never exhausted (C13_match_fuel_never_exhausted); the composition 'the matcher with every bound replaced by a larger one returns the same result' is not restated as one theorem",
-    "string.pack / string.unpack: C13_pack_unpack_format_roundtrip is over the option LIST (after parsing) for integer, string, padding, endianness and alignment options; the runtime parser of pack is tied to Lua's by C13_packsize_eq_lua for packsize only (pack's own option loop is the same code path but is not separately proved), unpack's format is parsed at compile time by the preprocessor (Lua code, not modelled; the model voice parses the format in harness glue); float options f d n: differential only; pack <> Lua's pack byte for byte: proved for the integer codec (C13_pack_int_eq_lua), differential for whole formats",
-    "string.packsize / string.pack accept more than Lua: the extension option 't' (isize) and sizes above Lua's caps (a number above 2147483639 is cut by lstrlib.c's getnum and the rest is an 'invalid format option'; a total above INT_MAX is 'format result too large'; the port has neither cap: packsize('c2147483647') = 2147483647, packsize('c2147483639c9') = 2147483648; model and spec reproduce both sides); C13_packsize_eq_lua is one direction (Lua returns a size => same size) and the generators stay below the cap",
-    "utf8.codes as an iterator protocol (the step function is proved: C13_utf8codes_step_eq_lua), string.byte/char varargs: differential only; string.find plain: C13_find_plain_first/_none (first occurrence), the surrounding StrPatt.match glue differential",
-    "gmatch with captures limit (MAX_CAPTURES = 8) and position captures ('not supported yet' asserts): the port stops; counted as port_undefined_where_lua_defined",
+    "drivers with a loop bound that ends in a normal-looking value and no adequacy lemma (argued sufficient by inspection; the same bound is used on both sides of the equalities): lua_search / nl_search (None), gmatch_next (end of iteration), utf8 skip_cont / off_* / nl_cp_loop, packsize loops (error / trap); errors of the matcher inside find / gsub / gmatch are propagated by driver.ml glue (the Coq drivers take a matcher that can only say 'no match'), so C13_gsub_pattern_eq_lua_partial excludes malformed patterns and budget overruns by hypothesis",
+    "string.pack / string.unpack: C13_pack_unpack_format_roundtrip is over the option LIST (after parsing) for integer, string, padding, endianness and alignment options; the runtime parser of pack is tied to Lua's by C13_packsize_eq_lua_partial for packsize only, unpack's format is parsed at compile time by the preprocessor (Lua code, not modelled; the model voice parses the format in harness glue); unpack of integers against Lua: one shared definition (round trip only); float options f d n: differential only",
+    "one-direction theorems (_partial): rep / rep with separator and packsize are 'Lua returns => same value'; the converse is false by design (Lua caps results at INT_MAX, numbers in formats at 2147483639, and has no option 't'; the port has neither cap: packsize('c2147483647') = 2147483647). C13_rep_val_is_repetition bounds what rep may return; nothing bounds packsize beyond the caps (the generators stay below them); codepoint: one position, port value => Lua value",
+    "utf8.codes as an iterator protocol (the step function is proved), string.byte(i, j) / string.char varargs, gsub with function or table replacement, the 8-capture limit and position captures of gmatch (asserts reproduced in driver.ml only): differential only",
+    "harness glue that is not proved: driver.ml's StrPatt.create (anchor / plain decision), capture rendering, gmatch outer loop, pack/unpack format reading; ops without a model voice: concat, float ops, utf8char2, patterns with more than 10 quantifiers or longer than 64 bytes",
 ]
